@@ -14,6 +14,7 @@ META = {
         "record, and write hands over exactly the pending records (the send buffer is reset before it is filled); R5 the read task flushes a "
         "lane's sender before switching lanes and feeds every command; R6 the command lane handler runs once per command; R7 every received "
         "command message reaches CommandOutput::append. R12 (shared with C10.R13) the command decoder resumes a frame that arrives in pieces; R13 commands written by a handler are handed to the command writer on every path that leaves it (known finding F59)."
+        ' R17 CommandOutput::write clears `dirty` without walking it only when it has exactly one entry.'
 ),
     "does_not_decide": "end-to-end exactly-once delivery under a stalled peer over all interleavings",
 }
